@@ -136,7 +136,7 @@ func (w *identWorld) msgFor(a IdentAct) (sdk.Msg, func(), error) {
 		clientID, version := w.path.EndpointA.ClientID, ibctesting.DefaultOpenInitVersion
 		switch a.Kind {
 		case "noclient":
-			clientID = "07-tendermint-99"
+			clientID = "07-tendermint-999999"
 		case "badversion":
 			version = connectiontypes.NewVersion("9", []string{"ORDER_ORDERED"})
 		}
@@ -145,7 +145,7 @@ func (w *identWorld) msgFor(a IdentAct) (sdk.Msg, func(), error) {
 		port, conn := ibctesting.MockPort, w.path.EndpointA.ConnectionID
 		switch a.Kind {
 		case "noconn":
-			conn = "connection-99"
+			conn = "connection-999999"
 		case "badport":
 			port = "unroutedport"
 		case "appreject":
